@@ -22,9 +22,11 @@ VARIABLES done,        \* the server's done flag (channel closed)
           cpc,         \* [Closers -> pc]: "idle" "kind chosen" ... "returned"
           ckind,       \* [Closers -> "close" | "shutdown"]
           cres,        \* [Closers -> "" | "nil" | "closed" (ErrServerClosed) | "ctx"]
-          ctxdone      \* [Closers -> BOOLEAN]: the Shutdown context expired
+          ctxdone,     \* [Closers -> BOOLEAN]: the Shutdown context expired
+          appclosed,   \* the application closed the listener itself, before any Close/Shutdown
+          lerr         \* [Closers -> BOOLEAN]: this closer found the listener already closed (its Close fails)
 
-vars == <<done, lclosed, serve, serveRes, conns, nconn, ntemp, cpc, ckind, cres, ctxdone>>
+vars == <<done, lclosed, serve, serveRes, conns, nconn, ntemp, cpc, ckind, cres, ctxdone, appclosed, lerr>>
 
 Init == /\ done = FALSE /\ lclosed = FALSE /\ serve = "accepting" /\ serveRes = ""
         /\ conns = {} /\ nconn = 0 /\ ntemp = 0
@@ -32,28 +34,40 @@ Init == /\ done = FALSE /\ lclosed = FALSE /\ serve = "accepting" /\ serveRes = 
         /\ ckind \in [Closers -> {"close", "shutdown"}]
         /\ cres = [c \in Closers |-> ""]
         /\ ctxdone = [c \in Closers |-> FALSE]
+        /\ appclosed = FALSE /\ lerr = [c \in Closers |-> FALSE]
+
+\* the application closes the listener itself: Accept fails, and since the
+\* server was not closed that is a permanent error for Serve
+AppCloseListener ==
+  /\ ~lclosed /\ ~done /\ serve # "returned"
+  /\ lclosed' = TRUE /\ appclosed' = TRUE
+  /\ UNCHANGED <<done, serve, serveRes, conns, nconn, ntemp, cpc, ckind, cres, ctxdone, lerr>>
+AcceptAppClosed ==
+  /\ serve \in {"accepting", "backoff"} /\ lclosed /\ ~done
+  /\ serve' = "returned" /\ serveRes' = "perm"
+  /\ UNCHANGED <<done, lclosed, conns, nconn, ntemp, cpc, ckind, cres, ctxdone, appclosed, lerr>>
 
 \* ---- Serve
 AcceptConn == /\ serve = "accepting" /\ ~lclosed /\ nconn < MaxConns
               /\ nconn' = nconn + 1 /\ conns' = conns \cup {nconn + 1}
-              /\ UNCHANGED <<done, lclosed, serve, serveRes, ntemp, cpc, ckind, cres, ctxdone>>
+              /\ UNCHANGED <<done, lclosed, serve, serveRes, ntemp, cpc, ckind, cres, ctxdone, appclosed, lerr>>
 AcceptTemp == /\ serve = "accepting" /\ ~lclosed /\ ntemp < MaxTemp
               /\ ntemp' = ntemp + 1 /\ serve' = "backoff"
-              /\ UNCHANGED <<done, lclosed, serveRes, conns, nconn, cpc, ckind, cres, ctxdone>>
+              /\ UNCHANGED <<done, lclosed, serveRes, conns, nconn, cpc, ckind, cres, ctxdone, appclosed, lerr>>
 \* a temporary error while the server is being closed returns nil (done is checked first)
 BackoffOver == /\ serve = "backoff" /\ serve' = "accepting"
-               /\ UNCHANGED <<done, lclosed, serveRes, conns, nconn, ntemp, cpc, ckind, cres, ctxdone>>
+               /\ UNCHANGED <<done, lclosed, serveRes, conns, nconn, ntemp, cpc, ckind, cres, ctxdone, appclosed, lerr>>
 AcceptPerm == /\ serve = "accepting" /\ ~lclosed /\ ~done
               /\ serve' = "returned" /\ serveRes' = "perm"
-              /\ UNCHANGED <<done, lclosed, conns, nconn, ntemp, cpc, ckind, cres, ctxdone>>
+              /\ UNCHANGED <<done, lclosed, conns, nconn, ntemp, cpc, ckind, cres, ctxdone, appclosed, lerr>>
 \* the listener was closed: Accept fails, done is set, Serve returns nil
 AcceptClosed == /\ serve \in {"accepting", "backoff"} /\ lclosed /\ done
                 /\ serve' = "returned" /\ serveRes' = "nil"
-                /\ UNCHANGED <<done, lclosed, conns, nconn, ntemp, cpc, ckind, cres, ctxdone>>
+                /\ UNCHANGED <<done, lclosed, conns, nconn, ntemp, cpc, ckind, cres, ctxdone, appclosed, lerr>>
 
 \* ---- connections
 ConnFinish(k) == /\ k \in conns /\ conns' = conns \ {k}
-                 /\ UNCHANGED <<done, lclosed, serve, serveRes, nconn, ntemp, cpc, ckind, cres, ctxdone>>
+                 /\ UNCHANGED <<done, lclosed, serve, serveRes, nconn, ntemp, cpc, ckind, cres, ctxdone, appclosed, lerr>>
 
 \* ---- Close / Shutdown
 \* check-and-set of the done flag: atomic
@@ -62,34 +76,37 @@ Begin(c) ==
   /\ IF done THEN /\ cpc' = [cpc EXCEPT ![c] = "returned"] /\ cres' = [cres EXCEPT ![c] = "closed"]
                   /\ UNCHANGED done
      ELSE /\ done' = TRUE /\ cpc' = [cpc EXCEPT ![c] = "listeners"] /\ UNCHANGED cres
-  /\ UNCHANGED <<lclosed, serve, serveRes, conns, nconn, ntemp, ckind, ctxdone>>
+  /\ UNCHANGED <<lclosed, serve, serveRes, conns, nconn, ntemp, ckind, ctxdone, appclosed, lerr>>
 
 CloseListeners(c) ==
   /\ cpc[c] = "listeners" /\ lclosed' = TRUE
+  /\ lerr' = [lerr EXCEPT ![c] = appclosed]
   /\ cpc' = [cpc EXCEPT ![c] = IF ckind[c] = "close" THEN "conns" ELSE "wait"]
-  /\ UNCHANGED <<done, serve, serveRes, conns, nconn, ntemp, ckind, cres, ctxdone>>
+  /\ UNCHANGED <<done, serve, serveRes, conns, nconn, ntemp, ckind, cres, ctxdone, appclosed>>
 
 \* Close: every open connection is closed (its handler then finishes), return nil
 CloseConns(c) ==
   /\ cpc[c] = "conns" /\ conns' = {}
-  /\ cpc' = [cpc EXCEPT ![c] = "returned"] /\ cres' = [cres EXCEPT ![c] = "nil"]
-  /\ UNCHANGED <<done, lclosed, serve, serveRes, nconn, ntemp, ckind, ctxdone>>
+  \* (the listener's error is returned, but only after every connection was closed)
+  /\ cpc' = [cpc EXCEPT ![c] = "returned"] /\ cres' = [cres EXCEPT ![c] = IF lerr[c] THEN "lerr" ELSE "nil"]
+  /\ UNCHANGED <<done, lclosed, serve, serveRes, nconn, ntemp, ckind, ctxdone, appclosed, lerr>>
 
 \* Shutdown: wait until no connection is left and Serve... (wg counts handlers)
 ShutdownDone(c) ==
   /\ cpc[c] = "wait" /\ conns = {}
-  /\ cpc' = [cpc EXCEPT ![c] = "returned"] /\ cres' = [cres EXCEPT ![c] = "nil"]
-  /\ UNCHANGED <<done, lclosed, serve, serveRes, conns, nconn, ntemp, ckind, ctxdone>>
+  /\ cpc' = [cpc EXCEPT ![c] = "returned"] /\ cres' = [cres EXCEPT ![c] = IF lerr[c] THEN "lerr" ELSE "nil"]
+  /\ UNCHANGED <<done, lclosed, serve, serveRes, conns, nconn, ntemp, ckind, ctxdone, appclosed, lerr>>
 CtxExpire(c) ==
   /\ cpc[c] = "wait" /\ ckind[c] = "shutdown" /\ ~ctxdone[c] /\ conns # {}
   /\ ctxdone' = [ctxdone EXCEPT ![c] = TRUE]
   /\ cpc' = [cpc EXCEPT ![c] = "returned"] /\ cres' = [cres EXCEPT ![c] = "ctx"]
-  /\ UNCHANGED <<done, lclosed, serve, serveRes, conns, nconn, ntemp, ckind>>
+  /\ UNCHANGED <<done, lclosed, serve, serveRes, conns, nconn, ntemp, ckind, appclosed, lerr>>
 
 Terminal == /\ \A c \in Closers : cpc[c] = "returned"
             /\ serve = "returned" /\ conns = {}
 
 Next == \/ AcceptConn \/ AcceptTemp \/ BackoffOver \/ AcceptPerm \/ AcceptClosed
+        \/ AppCloseListener \/ AcceptAppClosed
         \/ \E k \in 1..MaxConns : ConnFinish(k)
         \/ \E c \in Closers : Begin(c) \/ CloseListeners(c) \/ CloseConns(c) \/ ShutdownDone(c) \/ CtxExpire(c)
         \/ (Terminal /\ UNCHANGED vars)
@@ -101,19 +118,21 @@ Spec == Init /\ [][Next]_vars /\ WF_vars(Next)
 
 \* exactly one closer wins; every other one reports that the server is already closed
 ExactlyOnce ==
-  Cardinality({c \in Closers : cres[c] \in {"nil", "ctx"} \/ cpc[c] \in {"listeners", "conns", "wait"}}) <= 1
+  Cardinality({c \in Closers : cres[c] \in {"nil", "ctx", "lerr"} \/ cpc[c] \in {"listeners", "conns", "wait"}}) <= 1
 SecondReportsClosed ==
   \A c \in Closers : cres[c] = "closed" => \E d \in Closers \ {c} : cpc[d] # "idle"
 \* after Close returned nothing is left open
 CloseEndsEverything ==
-  \A c \in Closers : (ckind[c] = "close" /\ cres[c] = "nil") => (conns = {} /\ lclosed /\ done)
+  \A c \in Closers : (ckind[c] = "close" /\ cres[c] \in {"nil", "lerr"}) => (conns = {} /\ lclosed /\ done)
 \* Shutdown returns nil only when the connections have finished
 ShutdownWaits ==
-  \A c \in Closers : (ckind[c] = "shutdown" /\ cres[c] = "nil") => conns = {}
+  \A c \in Closers : (ckind[c] = "shutdown" /\ cres[c] \in {"nil", "lerr"}) => conns = {}
 \* Serve returns nil only after a Close/Shutdown, and a permanent error otherwise
 ServeResult == (serveRes = "nil" => done) /\ (serveRes = "perm" => serve = "returned")
+\* a listener that was already closed makes Close report its error, but never skip the rest
+ListenerErrorStillCloses == \A c \in Closers : cres[c] = "lerr" => (done /\ (ckind[c] = "close" => conns = {}))
 \* temporary errors never end Serve
-TempNeverEnds == [][serve = "backoff" => serve' \in {"backoff", "accepting", "returned"} /\ (serve' = "returned" => done)]_vars
+TempNeverEnds == [][serve = "backoff" => serve' \in {"backoff", "accepting", "returned"} /\ (serve' = "returned" => (done \/ appclosed))]_vars
 \* no deadlock: TLC's deadlock check with the explicit terminal stutter
 EventuallyServeReturns == (\E c \in Closers : cpc[c] # "idle") ~> (serve = "returned")
 =============================================================================
